@@ -75,7 +75,7 @@ func TestVerifC16(t *testing.T) {
 	}
 	names := append([]string{}, full.Names...)
 	sort.Strings(names)
-	variants := []string{"as-is", "upper", "lower", "reflow-40", "reflow-120-tabs", "reflow-crlf", "decor-slashes", "decor-hash", "decor-star", "decor-dashes"}
+	variants := []string{"as-is", "upper", "lower", "reflow-40", "reflow-120-tabs", "reflow-crlf", "reflow-one-line", "decor-slashes", "decor-hash", "decor-star", "decor-dashes"}
 	type cdesc struct {
 		file    string
 		variant string
@@ -86,11 +86,22 @@ func TestVerifC16(t *testing.T) {
 		perm := rr.Perm(len(names))
 		for k := 0; k < 36; k++ {
 			f := names[perm[k]]
-			cases = append(cases, cdesc{f, "as-is"}, cdesc{f, variants[1+rr.Intn(2)]}, cdesc{f, variants[3+rr.Intn(7)]})
+			cases = append(cases, cdesc{f, "as-is"}, cdesc{f, variants[1+rr.Intn(2)]}, cdesc{f, variants[3+rr.Intn(8)]})
 		}
 	} else {
 		for _, f := range names {
-			cases = append(cases, cdesc{f, "as-is"}, cdesc{f, "upper"}, cdesc{f, "lower"}, cdesc{f, variants[3+rr.Intn(3)]}, cdesc{f, variants[6+rr.Intn(4)]}, cdesc{f, variants[3+rr.Intn(7)]})
+			cases = append(cases, cdesc{f, "as-is"}, cdesc{f, "upper"}, cdesc{f, "lower"}, cdesc{f, variants[3+rr.Intn(3)]}, cdesc{f, "reflow-one-line"}, cdesc{f, variants[7+rr.Intn(4)]}, cdesc{f, variants[3+rr.Intn(8)]})
+		}
+	}
+	if e.quick() {
+		// the one-line re-flow for every file that begins with a notice line (the layout in
+		// which a whole-line rule can swallow the text), plus a sample of the others
+		for _, f := range names {
+			raw, _ := ReadLicenseFile(f)
+			first := strings.ToLower(strings.SplitN(strings.TrimSpace(string(raw)), "\n", 2)[0])
+			if strings.Contains(first, "copyright") || rr.Intn(8) == 0 {
+				cases = append(cases, cdesc{f, "reflow-one-line"})
+			}
 		}
 	}
 	nid := len(cases)
@@ -124,7 +135,7 @@ func TestVerifC16(t *testing.T) {
 						for _, hdr := range []bool{true, false} {
 							for _, m := range C.MultipleMatch(q, hdr) {
 								nm++
-								if m.Confidence < thr && !C.WithinConfidenceThreshold(m.Confidence) {
+								if m.Confidence < thr-1e-9 {
 									cs.hostileInput([]byte(q))
 									cs.violation("match-below-threshold", "threshold %v: MultipleMatch returned %s", thr, vFmtMatch(m))
 									return
@@ -135,6 +146,34 @@ func TestVerifC16(t *testing.T) {
 								}
 							}
 						}
+					}
+				}
+				// sweep the amount of inserted junk across the point where the confidence
+				// crosses the threshold: matches just below it must not be reported
+				for _, n := range sub {
+					raw, _ := ReadLicenseFile(n)
+					if len(raw) > 3000 || len(raw) < 300 {
+						continue
+					}
+					L := len(vNormLicense(string(raw)))
+					lo, hi := int(float64(L)*(1/thr-1)*0.8), int(float64(L)*(1/thr-1)*1.25)
+					step := (hi - lo) / 40
+					if step < 1 {
+						step = 1
+					}
+					mid := len(raw) / 2
+					for j := lo; j <= hi; j += step {
+						junk := strings.Repeat("zq xj kv ", j/9+1)[:j]
+						q := string(raw[:mid]) + " " + junk + " " + string(raw[mid:])
+						for _, m := range C.MultipleMatch(q, true) {
+							nm++
+							if m.Confidence < thr-1e-9 {
+								cs.hostileInput([]byte(q))
+								cs.violation("match-below-threshold", "threshold %v: MultipleMatch returned %s (license %s with %d junk bytes inserted)", thr, vFmtMatch(m), n, j)
+								return
+							}
+						}
+						e.count("threshold_cliff_queries", 1)
 					}
 				}
 				e.count("multiplematch_results_checked", int64(nm))
@@ -163,6 +202,8 @@ func TestVerifC16(t *testing.T) {
 				text = vReflow(r, text, 120, true, false)
 			case "reflow-crlf":
 				text = vReflow(r, text, 72, false, true)
+			case "reflow-one-line":
+				text = strings.Join(strings.Fields(text), " ") + "\n"
 			case "decor-slashes":
 				text = vDecorate(text, "// ")
 			case "decor-hash":
